@@ -304,9 +304,10 @@ Definition check_name (k : check) : string :=
   | CVrfReg => "validateVRFKeyRegistration" end%string.
 Definition all_checks : list check :=
   [CSlot; CBlockNo; CPrevHash; CVrf; CLeader; CNonceVrf; CKesPeriod; CKesSig; COpCert; CVrfReg].
-(* the guard under which ValidateHeader runs the check ("" = always) *)
+(* the guard under which ValidateHeader runs the check ("" = always); the variable holding the
+   first result of a check is written out(<check>) by the translator *)
 Definition check_guard (k : check) : string :=
-  match k with CLeader => "vrfOutput != nil" | _ => "" end%string.
+  match k with CLeader => "out(validateVRFProof) != nil" | _ => "" end%string.
 
 Definition fail_if (ok : bool) (k : check) : list check := if ok then [] else [k].
 
